@@ -115,6 +115,12 @@ def base_record(opts):
         rec["directives"]["tag"] = {"desc": d("a tag"), "locations": ["FIELD_DEFINITION", "OBJECT"],
                                     "args": [{"name": "v", "type": "Int", "default": ("1", 1), "desc": None}, {"name": "w", "type": "String!", "default": None, "desc": None}]}
         rec["order"].append("@tag")
+    if o["dep"] == 2:
+        # EVERY member of the second object type, the interface and the enum is deprecated (still a valid schema)
+        for tname in ("B", "Node", "Color"):
+            t = rec["types"].get(tname)
+            for m in (t or {}).get("fields", []) + (t or {}).get("values", []):
+                m["dep"] = m.get("dep") or "all of %s is deprecated" % tname
     return rec
 
 
